@@ -144,6 +144,18 @@ func (s *Sim) driveEvents() {
 		s.quiescents++
 		e.advanceModel(produced, resized)
 		e.drainSubs(false)
+		{
+			// abstract state of the event system at this quiescent point: window position relative to the
+			// capacity, fill, and what every subscriber has received so far
+			lo, hi := e.lastRange(es)
+			st := fmt.Sprint(e.capNow, hi-lo, lo%maxU(e.capNow, 1), e.added > int(e.capNow))
+			for _, sub := range e.subs {
+				st += fmt.Sprint("|", sub.want, sub.closed, sub.stream != nil, len(sub.got))
+			}
+			if len(s.stateSet) < 1<<16 {
+				s.stateSet[hashStr(1469598103934665603, st)] = true
+			}
+		}
 		if r.Bool(0.2) {
 			s.c.advanceClock(time.Duration(r.Range(100, 3000))*time.Millisecond, time.Second)
 		}
@@ -391,4 +403,11 @@ func tailInts(xs []int, n int) []int {
 		return xs[len(xs)-n:]
 	}
 	return xs
+}
+
+func maxU(a, b uint64) uint64 {
+	if a > b {
+		return a
+	}
+	return b
 }
